@@ -137,7 +137,10 @@ def run_vh_batches(vh, prop, tier, nbatch, work, timeout, extra_args=None, merge
             tail = ""
             try:
                 with open(errf, errors="replace") as f:
-                    tail = f.read()[-6000:]
+                    full = f.read()
+                # keep the line that says why the process died (it precedes the goroutine dump) and the end
+                m0 = re.search(r"^(panic: .*|fatal error: .*)$", full, re.M)
+                tail = (full[m0.start():m0.start() + 3000] + "\n...\n" if m0 else "") + full[-3000:]
             except OSError:
                 pass
             case = None
